@@ -7,7 +7,9 @@ package size
 import (
 	"bytes"
 	"encoding/json"
+	"errors"
 	"fmt"
+	"io"
 	"strconv"
 	"strings"
 
@@ -143,17 +145,41 @@ func unmarshalJSON[T constraint.ParserInput](input T, r Rule) (Size, error) {
 		if err != nil {
 			return 0, newParseError(defaultParserFuncName, input, err)
 		}
+		// consume end of object
+		if _, err = d.Token(); err != nil {
+			return 0, newParseError(defaultParserFuncName, input, err)
+		}
+		if err = expectEOF(d); err != nil {
+			return 0, newParseError(defaultParserFuncName, input, err)
+		}
 		return size, nil
 	case json.Number:
+		if err = expectEOF(d); err != nil {
+			return 0, newParseError(defaultParserFuncName, input, err)
+		}
 		return unmarshalText([]byte(v), 0)
 	case string:
 		if r&RuleEnableJSONStringForm == 0 {
 			return 0, newParseError(defaultParserFuncName, input, ErrStringFormDisabled)
 		}
+		if err = expectEOF(d); err != nil {
+			return 0, newParseError(defaultParserFuncName, input, err)
+		}
 		return unmarshalText([]byte(v), 0)
 	default:
 		return 0, newParseError(defaultParserFuncName, input, fmt.Errorf("%w: expected json.Delim, json.Number or string instead of %T", ErrInvalidType, t))
 	}
+}
+
+// expectEOF returns error if there is any other data after top-level JSON value.
+func expectEOF(d *json.Decoder) error {
+	if _, err := d.Token(); err != io.EOF {
+		if err == nil {
+			err = errors.New("unexpected data after top-level value")
+		}
+		return err
+	}
+	return nil
 }
 
 func prepareNumber(input string) (number, unit string) {
@@ -191,11 +217,11 @@ func unmarshalJSONObject(d decoder, r Rule) (Size, error) {
 	unit := (*string)(nil)
 keys:
 	for i := 0; true; i++ {
-		if i > MaxObjectKeys {
-			return 0, fmt.Errorf("%w: %d > %d", ErrObjectTooBig, i, MaxObjectKeys)
-		}
 		if !d.More() {
 			break keys
+		}
+		if MaxObjectKeys != 0 && i >= MaxObjectKeys {
+			return 0, fmt.Errorf("%w: %d > %d", ErrObjectTooBig, i+1, MaxObjectKeys)
 		}
 		t, err := d.Token()
 		if err != nil {
